@@ -363,7 +363,70 @@ def spellings(d, fill):
                 out.append((grp + ':call()-kwargs', build(mk_call(True))))
         for vi, val in enumerate(LAZY_DATA):
             lazy_group(vi, val)
+    # 8. one eager parameter given a value at the edge of its type (a whole
+    # float, a boolean, a numeral in a string, null): written as a literal
+    # or held by a variable, positional, by keyword or through call() - the
+    # call is accepted by all spellings or refused by all of them
+    SIMPLE = ('Keyword', 'StringConstant', 'YaqlExpression', 'MappingRule')
+    if not d.varargs and not d.kwonly and d.fd.name[:1] != '#' and all(
+            not p.lazy and p.cls not in SIMPLE for p in d.visible):
+        def near_group(i, vi, val):
+            grp = 'near%d-%d' % (i, vi)
+
+            def put(c, filler):
+                return [filler if j == i else f
+                        for j, f in enumerate(c.positional)]
+
+            def pos_as(kind):
+                def fn(c):
+                    filler = ('src', common.lit(val)) if kind == 'lit' \
+                        else ('var', val)
+                    return render(c, put(c, filler), c.kw)
+                return fn
+
+            def kw_as(kind):
+                def fn(c):
+                    filler = ('src', common.lit(val)) if kind == 'lit' \
+                        else ('var', val)
+                    pos = put(c, filler)
+                    moved = [(p.alias, f) for p, f in zip(pos_params[i:],
+                                                          pos[i:])]
+                    return render(c, pos[:i], moved + c.kw)
+                return fn
+
+            def as_call(c):
+                pos = put(c, ('var', val))
+                if any(f[0] != 'var' for f in pos):
+                    raise ValueError('source-only filler')
+                binds = {}
+
+                def r(f):
+                    n = 'v%d' % len(binds)
+                    binds[n] = f[1]
+                    return '$' + n
+                args = [r(f) for f in pos]
+                kws = ', '.join('%s => %s' % (k, r(f)) for k, f in c.kw)
+                if d.method_only and args:
+                    return "call('%s', [%s], {%s}, %s)" % (
+                        d.clone_name, ', '.join(args[1:]), kws,
+                        args[0]), binds
+                return "call('%s', [%s], {%s})" % (
+                    d.clone_name, ', '.join(args), kws), binds
+            out.append((grp + ':near-literal', build(pos_as('lit'))))
+            out.append((grp + ':near-variable', build(pos_as('var'))))
+            if nk:
+                out.append((grp + ':near-keyword-literal',
+                            build(kw_as('lit'))))
+                out.append((grp + ':near-keyword-variable',
+                            build(kw_as('var'))))
+            out.append((grp + ':near-call()', build(as_call)))
+        for i in range(first, len(pos_params)):
+            for vi, val in enumerate(NEAR_VALUES):
+                near_group(i, vi, val)
     return out
+
+
+NEAR_VALUES = [2.0, True, '2', None, 2, 0.5]
 
 
 def _host_callable(*args):
